@@ -51,6 +51,20 @@ Definition stream_fold (f : arr -> Z -> arr -> arr * Z) (junk : arr) (fs : list 
 Definition zerodm_pipe fs nch gulp start nsamps (junk bpass chanwts : arr) :=
   stream_fold (fun out n_r d => zerodm_block out d bpass chanwts nch n_r) junk fs nch gulp start nsamps.
 
+(** extract_chans / extract_bands write several files, opened in batches of [bs] = batch_size (Gen.TransformSites.batch_end, chans_batch_index,
+    bands_batch_c0 are regenerated from base.py): [batched n bs file] lists, in the order of the returned file names, what [file batch_start ifile]
+    yields for every batch_start in range(0, n, bs) and every ifile in range(batch_end - batch_start) *)
+Definition batch_starts (n bs : Z) : list Z := map (fun b => b * bs) (zrange ((n + bs - 1) / bs)).
+Definition batched {A : Type} (n bs : Z) (file : Z -> Z -> A) : list A :=
+  flat_map (fun b0 => map (file b0) (zrange (batch_end b0 bs n - b0))) (batch_starts n bs).
+Definition chans_files fs nch gulp start nsamps (bs : Z) (chans : list Z) : list (option (list Z)) :=
+  batched (Z.of_nat (length chans)) bs
+    (fun b0 ifile => chans_pipe fs nch gulp start nsamps (nth (Z.to_nat (chans_batch_index b0 ifile)) chans 0)).
+Definition bands_files fs nch gulp start nsamps (bs chanstart nchans_sel cps : Z) : list (option (list Z)) :=
+  batched (bands_count nchans_sel cps) bs
+    (fun b0 ifile => bands_pipe fs nch gulp start nsamps (bands_batch_c0 chanstart cps b0 ifile) cps 0).
+Definition concat_files (l : list (option (list Z))) : list Z := flat_map (fun o => match o with Some x => x | None => [-1] end) l.
+
 (** integer mean reduced to an unsigned depth: truncation of a non-negative quotient *)
 Definition div_floor (a b : Z) : Z := a / b.
 
@@ -61,5 +75,15 @@ Definition pipe7_eval (api : Z) (xs : list Z) (nch N gulp start nsamps : Z) (ps 
     else if api =? 1 then downsample_pipe fs nch gulp start nsamps div_floor (fun _ => 77) (nth 0 ps 1) (nth 1 ps 1)
     else if api =? 2 then subband_pipe fs nch gulp start nsamps (nth 0 ps 0) (nth 1 ps 1) (of_list (skipn 2 ps)) (fun _ => 77)
     else if api =? 3 then zerodm_pipe fs nch gulp start nsamps (fun _ => 77) (of_list (firstn (Z.to_nat nch) ps)) (of_list (skipn (Z.to_nat nch) ps))
+    (* 4: apply_channel_mask, ps = mask_value :: mask (0/1 per channel);  5: extract_samps;  6: extract_chans, ps = [chan] (the file of that channel);
+       7: extract_bands, ps = [chanstart; chanpersub; iband] (the file of band iband) *)
+    else if api =? 4 then mask_pipe fs nch gulp start nsamps (of_list (skipn 1 ps)) (nth 0 ps 0)
+    else if api =? 5 then samps_pipe fs nch gulp start nsamps
+    else if api =? 6 then chans_pipe fs nch gulp start nsamps (nth 0 ps 0)
+    else if api =? 7 then bands_pipe fs nch gulp start nsamps (nth 0 ps 0) (nth 1 ps 1) (nth 2 ps 0)
+    (* 8: all files of extract_chans concatenated in the order of the returned names, ps = batch_size :: chans;
+       9: all files of extract_bands, ps = [batch_size; chanstart; nchans; chanpersub] *)
+    else if api =? 8 then Some (concat_files (chans_files fs nch gulp start nsamps (nth 0 ps 1) (skipn 1 ps)))
+    else if api =? 9 then Some (concat_files (bands_files fs nch gulp start nsamps (nth 0 ps 1) (nth 1 ps 0) (nth 2 ps 0) (nth 3 ps 1)))
     else None in
   match res with Some l => l | None => [-1] end.
